@@ -163,6 +163,17 @@ func VerifC16Structured() {
 		tag += ":" + d
 	}
 	tag += "}" + post
+	// optionally the same key is quoted once more in the same tag, with a default of its own
+	again := nd.Choose(4) // 0 no, 1 without default, 2 default "q", 3 default "rs"
+	againDefault := []string{"", "", "q", "rs"}[again]
+	if again > 0 {
+		nd.Cover("one key quoted twice with different defaults")
+		tag += "${b"
+		if again > 1 {
+			tag += ":" + againDefault
+		}
+		tag += "}"
+	}
 	prop := component_definition.NewProperty(nil, component_definition.PropertyTypeConfiguration, "value", tag)
 	p := vQuoteProc(cfg)
 	_, err := p.PostProcessProperties([]*component_definition.Property{prop}, nil, "c")
@@ -180,6 +191,13 @@ func VerifC16Structured() {
 		nd.Cover("absent without default")
 	}
 	want += post
+	if again > 0 {
+		if bKind == 3 {
+			want += vb
+		} else if bKind != 4 {
+			want += againDefault
+		}
+	}
 	nd.Observe("tagval", prop.TagVal)
 	nd.Assert(prop.TagVal == want, "C16: each placeholder is replaced by the configured value, else by the default")
 	nd.Assert(!p.el.MatchString(prop.TagVal), "C16: no placeholder is left after resolution")
@@ -304,6 +322,34 @@ func VerifC16Cyclic() {
 		nd.Observe("expanded", prop.TagVal)
 		nd.Assert(prop.TagVal == want || want == "" || !vPlainWord(want), "C16: every placeholder is replaced by its configured value, transitively")
 	}
+}
+
+// C16 termination on FRAGMENTS: the configured value of y and the tag are sequences of the pieces
+// "${y", "}" and "y", so that complete placeholders only come into being when a value is spliced
+// into the surrounding text (no single replacement text contains one).  Resolution must end - with
+// a value that holds no placeholder, or with an error - whatever the pieces are.
+func VerifC16Fragments() {
+	pieces := []string{"${y", "}", "y"}
+	k := nd.Param("K", 4)
+	val, tag := "", ""
+	for i := 0; i < k; i++ {
+		val += pieces[nd.Choose(3)]
+	}
+	for i := 0; i < k; i++ {
+		tag += pieces[nd.Choose(3)]
+	}
+	cfg := &vCfg{}
+	cfg.keys = []string{"y"}
+	cfg.vals = []any{val}
+	prop := component_definition.NewProperty(nil, component_definition.PropertyTypeConfiguration, "value", tag)
+	p := vQuoteProc(cfg)
+	_, err := p.PostProcessProperties([]*component_definition.Property{prop}, nil, "c")
+	if err != nil {
+		nd.Cover("growing text reported as an error")
+		return
+	}
+	nd.Cover("resolution terminates")
+	nd.Assert(!p.el.MatchString(prop.TagVal), "C16: no placeholder is left after resolution")
 }
 
 // C16 with the real binder: a placeholder whose key is empty names nothing, so its default applies -
